@@ -294,6 +294,54 @@ pub fn skeleton(layout: &str, log_trace: u64, page_cells: u64) -> Option<StarkPr
     proof_from_value(&v)
 }
 
+/// Exponents at the shift / word boundaries: public-input validation of every static layout with
+/// `log_n_steps` (and the trace exponent, moved along or not) at 31..33, 62..66, 79, 80, 127, 128, 255, 256.
+fn exponent_boundaries(rep: &mut Report) {
+    for layout in crate::refm::stonefile::LAYOUTS.iter().filter(|l| **l != "dynamic") {
+        let base = match skeleton(layout, 10, 15) {
+            Some(p) => p,
+            None => continue,
+        };
+        let v0 = proof_to_value_local(&base);
+        let lt0 = 10u64;
+        let ls0 = match v0["public_input"]["log_n_steps"].as_str().and_then(|h| Felt::from_hex(h).ok()) {
+            Some(f) => crate::kit::f2b(&f).to_u64_digits().first().cloned().unwrap_or(0),
+            None => continue,
+        };
+        let gap = lt0.saturating_sub(ls0); // log of the layout's rows per step
+        for e in [31u64, 32, 33, 62, 63, 64, 65, 66, 79, 80, 127, 128, 255, 256] {
+            for (tag, lt) in [("steps-only", lt0), ("steps-and-trace", e + gap)] {
+                let mut v = v0.clone();
+                v["public_input"]["log_n_steps"] = Value::String(format!("{:#x}", e));
+                v["config"]["log_trace_domain_size"] = Value::String(format!("{:#x}", lt));
+                let p = match proof_from_value(&v) {
+                    Some(p) => p,
+                    None => continue,
+                };
+                // the domain constructor is not the subject here: it is only called by verify after validation
+                let (ltf, lcf) = (p.config.log_trace_domain_size, p.config.log_n_cosets);
+                if crate::kit::panics::catch(move || StarkDomains::new(ltf, lcf)).is_err() {
+                    rep.eval("exponent-boundary:domain-constructor-panics:skipped");
+                    continue;
+                }
+                for sub in [Subject::ValidatePublicInput, Subject::VerifyPublicInput] {
+                    let r = run_subject(sub, &p, layout);
+                    rep.eval(&format!("exponent-boundary:{}:{}", sub.name(), r.short()));
+                    rep.nontrivial_case(&format!("expb|{}|{}|{}|{}", layout, e, tag, sub.name()));
+                    if let Verdict::Panic(pn) = &r {
+                        rep.violation(&format!("panic:{}:{}", sub.name(), pn.site()),
+                            &format!("{} panics at {}:{} ({}) - layout {}, log_n_steps = {}, trace exponent {}", sub.name(), pn.file, pn.line, pn.msg.chars().take(60).collect::<String>(), layout, e, lt),
+                            json!({"kind": "exponent", "layout": layout, "log_n_steps": e, "log_trace": lt, "subject": sub.name()}));
+                    }
+                }
+            }
+        }
+    }
+}
+fn proof_to_value_local(p: &StarkProof) -> Value {
+    serde_json::to_value(p).expect("proof serialises")
+}
+
 fn skeletons(rep: &mut Report) {
     for layout in crate::refm::stonefile::LAYOUTS.iter().filter(|l| **l != "dynamic") {
         for t in 4..=16u64 {
@@ -394,6 +442,7 @@ pub fn run(ctx: &Ctx) -> Report {
     }
     if build_name() == "k160s5" || !quick {
         skeletons(&mut rep);
+        exponent_boundaries(&mut rep);
     }
     rep.bound_completed = format!("{} proofs on build {}; {} deviation(s) + tiny-trace skeleton proofs", bs.len(), build_name(), if quick { "1" } else { "1 and selected pairs" });
     rep
@@ -405,6 +454,17 @@ pub fn replay(ctx: &Ctx, case: &Value) -> super::ReplayResult {
         let p = skeleton(layout, case["log_trace"].as_u64().ok_or("log_trace")?, case["cells"].as_u64().unwrap_or(15)).ok_or("no skeleton")?;
         let v = verify(&p, layout);
         return Ok((matches!(v, Verdict::Panic(_)), format!("skeleton -> {}", v.class())));
+    }
+    if case["kind"].as_str() == Some("exponent") {
+        let layout = case["layout"].as_str().ok_or("layout")?;
+        let base = skeleton(layout, 10, 15).ok_or("no skeleton")?;
+        let mut v = proof_to_value_local(&base);
+        v["public_input"]["log_n_steps"] = Value::String(format!("{:#x}", case["log_n_steps"].as_u64().ok_or("log_n_steps")?));
+        v["config"]["log_trace_domain_size"] = Value::String(format!("{:#x}", case["log_trace"].as_u64().ok_or("log_trace")?));
+        let p = proof_from_value(&v).ok_or("untypable")?;
+        let sub = Subject::from(case["subject"].as_str().ok_or("subject")?).ok_or("bad subject")?;
+        let r = run_subject(sub, &p, layout);
+        return Ok((matches!(r, Verdict::Panic(_)), format!("{} -> {}", sub.name(), r.class())));
     }
     let name = case["proof"].as_str().ok_or("proof")?;
     let b = bases(ctx, true).into_iter().find(|b| b.name == name).ok_or("no such base proof on this build")?;
